@@ -63,6 +63,13 @@ pub fn gen_demand_active(s: &mut Src) -> DemandActive {
         let at = s.below(caps.len() + 1);
         caps.insert(at, (t, s.fill(l)));
     }
+    // a set repeated (legal: the later one wins or both are kept, nothing forbids it)
+    if !caps.is_empty() && s.chance(40) {
+        let i = s.below(caps.len());
+        let dup = caps[i].clone();
+        let at = if s.bool() { caps.len() } else { s.below(caps.len() + 1) };
+        caps.insert(at, dup);
+    }
     let source = match s.below(4) {
         0 => b"RDP\0".to_vec(),
         1 => vec![],
